@@ -232,7 +232,7 @@ func (c *Ctx) emitModel() (*emitModel, error) {
 	}
 	for name, role := range emitPrims {
 		if f, _ := c.find(name); f == nil {
-			if role == "markInit" || role == "nop" {
+			if role == "markInit" || role == "nop" || role == "getRule" {
 				// written in place, its effect is recognised from the store itself (markInit) or it has none
 				continue
 			}
@@ -351,6 +351,22 @@ func (m *emitModel) hooks() Hooks {
 		case "<parser>.prev.val":
 			return tagV("prevval", p.epoch), true
 		}
+		// rules[t] written in place of getRule(t)
+		if ix, ok := e.(*ast.IndexExpr); ok && m.isRulesIndex(ix) {
+			ref := ruleRef{Epoch: p.epoch}
+			if c.fieldPath(ix.Index) == "<parser>.prev.typ" {
+				ref.FromPrev = true
+			}
+			for _, kv := range in.eval(st.clone(), ix.Index) {
+				if kv.v.K == vConst {
+					if v, ok := constant.Int64Val(kv.v.C); ok {
+						ref.Tok = &v
+					}
+				}
+				break
+			}
+			return tagV("rule", ref), true
+		}
 		// rule.prec / rule.prefix / rule.infix on a value obtained from getRule
 		if sel, ok := e.(*ast.SelectorExpr); ok {
 			for _, vs := range []ast.Expr{sel.X} {
@@ -359,6 +375,11 @@ func (m *emitModel) hooks() Hooks {
 					base = st.Env[c.objOf(id)]
 				} else if call, ok := stripParens(vs).(*ast.CallExpr); ok && emitPrims[c.calleeName(call)] == "getRule" {
 					r := in.eval(st, call)
+					if len(r) == 1 {
+						base = r[0].v
+					}
+				} else if ix, ok := stripParens(vs).(*ast.IndexExpr); ok && m.isRulesIndex(ix) {
+					r := in.eval(st, ix)
 					if len(r) == 1 {
 						base = r[0].v
 					}
@@ -1077,4 +1098,10 @@ func (c *Ctx) isMarkInitTarget(lhs ast.Expr) bool {
 	}
 	k, isC := c.intConst(be.Y)
 	return isC && k == 1
+}
+
+// isRulesIndex: e indexes the table of parse rules (the accessor written in place).
+func (m *emitModel) isRulesIndex(e *ast.IndexExpr) bool {
+	a, ok := m.c.typeOf(e.X).Underlying().(*types.Array)
+	return ok && isNamed(a.Elem(), bclPath, "parseRule")
 }
